@@ -802,7 +802,7 @@ class NodeEnumQNameProperty(NodeTextProperty):
             q_name = etree.QName(namespace, localname)
             return self._converter.to_py(q_name)
         except ElementNotFoundError:
-            return self._default_py_value
+            return copy.deepcopy(self._default_py_value)  # never hand out the shared default object itself
 
     def update_xml_value(self, instance: Any, node: xml_utils.LxmlElement):
         """Write value to node."""
@@ -1086,7 +1086,7 @@ class SubElementProperty(_ElementBase):
 
     def get_py_value_from_node(self, instance: Any, node: xml_utils.LxmlElement) -> Any:  # noqa: ARG002
         """Read value from node."""
-        value = self._default_py_value
+        value = copy.deepcopy(self._default_py_value)  # never hand out the shared default object itself
         try:
             sub_node = self._get_element_by_child_name(node, self._sub_element_name, create_missing_nodes=False)
             value_class = self.value_class.value_class_from_node(sub_node)
@@ -1144,7 +1144,7 @@ class ContainerProperty(_ElementBase):
 
     def get_py_value_from_node(self, instance: Any, node: xml_utils.LxmlElement) -> Any:  # noqa: ARG002
         """Read value from node."""
-        value = self._default_py_value
+        value = copy.deepcopy(self._default_py_value)  # never hand out the shared default object itself
         try:
             sub_node = self._get_element_by_child_name(node, self._sub_element_name, create_missing_nodes=False)
             node_type_str = sub_node.get(QN_TYPE)
@@ -1462,7 +1462,7 @@ class NodeTextListProperty(_ElementListProperty):
             if sub_node.text is not None:
                 return sub_node.text.split()
         except ElementNotFoundError:
-            return self._default_py_value
+            return copy.deepcopy(self._default_py_value)  # never hand out the shared default object itself
         else:
             return []
 
@@ -1505,7 +1505,7 @@ class NodeTextQNameListProperty(_ElementListProperty):
         try:
             sub_node = self._get_element_by_child_name(node, self._sub_element_name, create_missing_nodes=False)
         except ElementNotFoundError:
-            return self._default_py_value or []
+            return copy.deepcopy(self._default_py_value) or []
         if sub_node is None:
             return None
         if sub_node.text is not None:
